@@ -908,6 +908,9 @@ def report(ctx, corr, problems, shrink_ok=True, exempt=()):
                     if q:
                         v = {'what': q[0]['what'], 'input': 'typedef ' + q[0]['decl'] + ';', 'case': ser(small), 'expected': q[0]['expected'],
                              'got': q[0]['got'], 'shrunk_from': s}
+            if not v.get('known_id') and sum(1 for x in corr.violations if not x.get('known_id')) >= 5:
+                corr.count('further-violations-not-listed')
+                continue
             corr.violations.append(v)
 
 def still_fails(ctx, t):
